@@ -344,6 +344,7 @@ fn determine_worker_count(config: &config::Encoder) -> Result<usize, SourceError
     let default_parallelism = std::env::var(envvar_key::DEFAULT_PARALLELISM)
         .ok()
         .and_then(|s| s.parse::<usize>().ok())
+        .filter(|&n| n > 0)
         .unwrap_or(default_parallelism);
     Ok(config
         .workers
